@@ -149,6 +149,8 @@ def propose(rng, tree, mix, payload, names_f=NAMES_F, names_d=NAMES_D, prefix=""
             continue
         if op in ("write", "delete", "rename") and not files:
             continue
+        if op == "recase" and not (files or [d for d in dirs if d != prefix]):
+            continue
         if op in ("rmtree", "rmdir", "rename_dir") and len([d for d in dirs if d != prefix]) < 1:
             continue
         ops += [op] * wgt
@@ -170,6 +172,16 @@ def propose(rng, tree, mix, payload, names_f=NAMES_F, names_d=NAMES_D, prefix=""
         return ("rmtree", rng.choice(sub))
     if op == "rmdir":
         return ("rmdir", rng.choice(sub))
+    if op == "recase":
+        # a rename that changes nothing but the capitalisation of the last component
+        cands = files + sub
+        if not cands:
+            return None
+        x = rng.choice(cands)
+        head, leaf = x.rsplit("/", 1)
+        if leaf.swapcase() == leaf:
+            return None
+        return ("rename" if tree[x][0] == "f" else "rename_dir", x, head + "/" + leaf.swapcase())
     if op == "rename_dir":
         d = rng.choice(sub)
         cands = [x for x in dirs if not (x == d or x.startswith(d + "/"))]
